@@ -4,7 +4,7 @@ CONSTANTS
   JAllowFallsThrough = FALSE
   TBlockInverted = FALSE
   TNo172 = FALSE
-  Devs = {"names-never-resolved", "ipv6-literal-cut-at-colon"}
+  Devs = {"names-never-resolved", "ipv6-literal-cut-at-colon", "empty-allow-list-value-routes-nothing"}
   Tier = "quick"
   Impl = "ts"
 SPECIFICATION Spec
